@@ -282,10 +282,12 @@ Section MeshModel.
     | None => nret tt
     | Some new_addr =>
         nmod (fun n => set_mesh n (n_id n) (set_address (n_dhcp n) (reserved h) new_addr false) (n_do_dhcp n)) ;;;
-        (if (0 <=? new_addr) && (new_addr <=? 65535) then nret tt else nraise StructError) ;;;
+        (* header.message_type, header.to_node are assigned before struct.pack("<H", new_addr) can raise *)
         nmod (fun n => let h := fb_hdr n in
                        set_fb n (mkFrame (mkHeader (from_node h) (from_node h) (frame_id h) (IntT T_ADDR_RESP) (reserved h))
-                                         [Z.to_N (new_addr mod 256); Z.to_N (new_addr / 256)])) ;;;
+                                         (msg (n_fb n)))) ;;;
+        (if (0 <=? new_addr) && (new_addr <=? 65535) then nret tt else nraise StructError) ;;;
+        nmod (fun n => set_fb n (mkFrame (fb_hdr n) [Z.to_N (new_addr mod 256); Z.to_N (new_addr / 256)])) ;;;
         n <- nget ;;
         if negb (from_node (fb_hdr n) =? NET_DEFAULT) then
           let response := n_fb n in          (* frame_buf.pack() ... frame_buf.unpack(response) *)
